@@ -270,6 +270,28 @@ Definition infer_fun (fuel:nat) (fd:fundef) : outcome :=
       end
   end.
 
+(** Not part of the property: does the body contain a type that neither the signature nor an
+    annotation determines (e.g. the parameter of a lambda passed for an unused argument)?  fc hoists
+    such variables to extra type parameters (collectTVarLfd also walks the body); the property only
+    speaks about the variables of the parameter list and the result, so the harness keeps such
+    functions out of its main stream. *)
+Definition eq_types (es:list eqn) : list ty := flat_map (fun '(a,b) => [a;b]) es.
+
+Definition infer_ambiguous (fuel:nat) (fd:fundef) : bool :=
+  let np := length (f_params fd) in
+  let G := combine (param_names fd) (map TVar (seq 0 np)) in
+  match gen G (f_body fd) np with
+  | None => false
+  | Some (t, es, _) =>
+      match unify fuel (ann_eqs (f_params fd) 0 ++ es) with
+      | Ok sg =>
+          let sigvars := fo_vars_list (map (fun i => app_seq sg (TVar i)) (seq 0 np) ++ [app_seq sg t]) [] in
+          let all := fo_vars_list (map (app_seq sg) (eq_types es)) sigvars in
+          negb (Nat.eqb (length all) (length sigvars))
+      | _ => false
+      end
+  end.
+
 End Typing.
 
 (* ------------------------------------------------------------------ rendering (fc's text) *)
